@@ -330,9 +330,13 @@ func main() {
 			c.Violate("auto-sizing-exceeds-parts-limit-for-huge-or-unknown-size",
 				fmt.Sprintf("%+v: automatic sizing chose %d-byte parts and the upload went on with %d parts (limit %d)", uc, o.Ps, max(o.Tp, o.Parts), partsLimit), sh, ix, uc)
 		}
-		if !honest || uc.ErrAt >= 0 {
-			return // the rest of the property speaks about sources of the declared size and retryable answers
+		if uc.ErrAt >= 0 {
+			return // the rest of the property speaks about retryable answers
 		}
+		// a declared size that differs from the real one (the source is simply read to its end): the parts must
+		// still be cut with the negotiated part size, numbered, genuine and acknowledged once; only the clauses
+		// that speak about the declared size (totals, descriptor kind, limits) are not judged
+		structOnly := !honest
 		bad := func(sig, f string, a ...interface{}) {
 			c.Violate(sig, fmt.Sprintf("%+v: ", uc)+fmt.Sprintf(f, a...), sh, ix, uc)
 		}
@@ -382,7 +386,7 @@ func main() {
 			if q.Resp == rTrue {
 				accepted[q.Part]++
 			}
-			if o.Big {
+			if o.Big && !structOnly {
 				okTot := int64(q.Total) == n || (uc.Declared == -1 && q.Total == -1)
 				if uc.Declared == -1 && int64(q.Part) == n-1 && uc.Size%ps != 0 && int64(q.Total) != n {
 					okTot = false // the short last part is sent after the count was learned
@@ -405,6 +409,12 @@ func main() {
 		}
 		if int64(len(accepted)) != n {
 			bad("part-not-acknowledged-exactly-once", "%d distinct parts acknowledged, want %d", len(accepted), n)
+		}
+		if structOnly {
+			if int64(o.Parts) != n {
+				bad("descriptor-wrong", "descriptor says %d parts, %d were uploaded", o.Parts, n)
+			}
+			return
 		}
 		wantBig := uc.Declared == -1 || uc.Size > bigLimit
 		wantKind := 1
@@ -573,6 +583,16 @@ func main() {
 	// every automatic-sizing threshold without moving gigabytes
 	for _, d := range []int64{int64(partsLimit) * 128 * kib, int64(partsLimit)*128*kib + 1, int64(partsLimit)*256*kib + 1, int64(partsLimit) * 512 * kib, int64(partsLimit)*512*kib + 1, 4 << 30} {
 		one("declared-only", ucase{Auto: true, Declared: d, Size: 3, Threads: 2, ErrAt: -1})
+	}
+	// the negotiated part size must be the one the source is actually cut with: declared sizes just above
+	// every automatic-sizing threshold with a real source of a few parts (declared != real: only the part
+	// structure is judged)
+	for _, d := range []int64{int64(partsLimit)*128*kib + 1, int64(partsLimit)*256*kib + 1, 4 << 30} {
+		for _, t := range []int{1, 3} {
+			uc := ucase{Auto: true, Declared: d, Size: int64(c.Rng.Range(2, 4))*int64(expectedPartSize(ucase{Auto: true, Declared: d})) + int64(c.Rng.Intn(5000)), Threads: t}
+			answers(&uc)
+			one("declared-above-threshold", uc)
+		}
 	}
 	// random
 	for i := 0; i < c.N(60, 3000); i++ {
